@@ -547,9 +547,16 @@ def is_periodic_finding(c):
 
 
 def run(ctx):
+    import time
+    t0 = time.time()
+    phases = ctx.cov.setdefault("phase_seconds", {})
+
+    def mark(name):
+        phases[name] = round(time.time() - t0, 1)
     ctx.fingerprint(FILES)
     ctx.translate(["Time"])
     ctx.build("C19", deps=["Model/Release.v"])
+    mark("build")
     quick = ctx.tier == "quick"
     rng = ctx.rng
     n_rt = 1200 if quick else 12000
@@ -572,7 +579,9 @@ def run(ctx):
         mism = ctx.model_stream("S-float", HDR, "fop", "f_observe", cases)
         for idx, mv in mism[:3]:
             ctx.violation("float%d" % idx, {"stream": "S-float", "case": fops[idx], "implementation": impl["float_ops"][idx],
-                                             "model": mv, "what": "binary64 model disagrees with CPython"})
+                                             "model": mv,
+                                             "what": ("EventTime.fuzz(forced draw) is not round(time + max(min_bound, min(max_bound, draw)))"
+                                                      if fops[idx][0] == "fuzz" else "binary64 model disagrees with CPython")})
     except core.ModelEvalError as e:
         ctx.broken.append({"kind": "correspondence", "name": "S-float", "detail": str(e)[-600:]})
     ctx.cov["distinct_nontrivial"] += len({repr(o) for o in fops if o[0] in ("add", "round", "fuzz")})
@@ -626,6 +635,7 @@ def run(ctx):
     except core.ModelEvalError as e:
         ctx.broken.append({"kind": "correspondence", "name": "S-release-times", "detail": str(e)[-600:]})
 
+    mark("float+release-times")
     # ---------------- S-instantiate, S-closed-loop
     n_inst = 600 if quick else 7000
     n_cl = 400 if quick else 4000
@@ -710,6 +720,7 @@ def run(ctx):
     except core.ModelEvalError as e:
         ctx.broken.append({"kind": "correspondence", "name": "S-closed-loop", "detail": str(e)[-600:]})
 
+    mark("instantiate+closed-loop")
     # ---------------- S-loader, S-worker-loader
     n_ld = 400 if quick else 5000
     n_wl = 150 if quick else 1500
@@ -763,10 +774,13 @@ def run(ctx):
     except core.ModelEvalError as e:
         ctx.broken.append({"kind": "correspondence", "name": "S-loader", "detail": str(e)[-600:]})
 
+    mark("loaders")
     # ---------------- monitors on the implementation's own observations
     run_monitors(ctx, rt_cases, impl["release_times"], inst_cases, impl2["instantiate"], cl_cases, impl2["closed_loop"])
     # ---------------- corpus: regression cases of fixed defects, replay of open findings
+    mark("monitors")
     run_corpus(ctx)
+    mark("corpus")
 
 
 def num_sign(p):
